@@ -1368,8 +1368,19 @@ fn resolve_types_and_aliases(
 
         *scope_rc = Rc::new(scope);
 
-        types_report = types.analyze(Some(scope_rc.clone()));
-        aliases_report = aliases.analyze(Some(scope_rc.clone()));
+        // a definition that is resolved stays as it is: analysing it again would only nest the
+        // symbols of this pass inside it, which doubles a recursive type on every pass (and a
+        // chain of aliases needs one pass per link)
+        types_report = types
+            .iter_mut()
+            .filter(|x| !x.is_resolved())
+            .map(|x| x.analyze(Some(scope_rc.clone())))
+            .collect();
+        aliases_report = aliases
+            .iter_mut()
+            .filter(|x| !x.is_resolved())
+            .map(|x| x.analyze(Some(scope_rc.clone())))
+            .collect();
 
         // every pass nests the symbols of the previous one, so recursive definitions grow
         // geometrically: stop as soon as a pass resolves nothing new (what is left refers to
